@@ -57,10 +57,11 @@ def enum_v2(ctx):
     for name, top in V2_SWEEPS:
         for val in range(top):
             for extra in range(4 if name == "hdg" else 1):
-                for j in range(k):
+                for j in range(k + 1):
                     idx += 1
                     if ctx.mine(idx):
-                        yield {"sweep": name, "val": val, "extra": extra, "ctx_seed": ctx.rng("v2", name, val, extra, j).getrandbits(48)}
+                        # j == k: one context for the whole sweep, so that consecutive frames differ in the swept field only
+                        yield {"sweep": name, "val": val, "extra": extra, "ctx_seed": (ctx.rng("v2", name, val, extra, j) if j < k else ctx.rng("v2-fixed", name)).getrandbits(48)}
 
 
 def chk_v2(c, note):
@@ -159,10 +160,10 @@ def enum_v1(ctx):
     idx = 0
     for name, top in V1_SWEEPS:
         for val in range(top):
-            for j in range(k):
+            for j in range(k + 1):
                 idx += 1
                 if ctx.mine(idx):
-                    yield {"sweep": name, "val": val, "ctx_seed": ctx.rng("v1", name, val, j).getrandbits(48)}
+                    yield {"sweep": name, "val": val, "ctx_seed": (ctx.rng("v1", name, val, j) if j < k else ctx.rng("v1-fixed", name)).getrandbits(48)}
 
 
 def chk_v1(c, note):
